@@ -61,7 +61,7 @@ static Plan gen_c05(uint64_t seed, const std::string &tier) {
             fmt += "%{cmdline}"; } break;
         case 8: if (!used_filename) { used_filename = true; size_t n = (size_t)r.range(1, 600); e.path = value(n); fmt += "%{filename}"; } break;
         case 9: fmt += r.chance(1, 2) ? "%{failure}" : "%{nosuch" + std::string(r.chance(1, 2) ? ":arg" : "") + "}"; break;
-        case 10: { static const char *odd[] = {"%{}", "%{:x}", "%{noop}", "%{noop:arg}", "%{cwd}", "%{failure}"}; fmt += odd[r.below(6)]; break; }   // data sources that write nothing / fail
+        case 10: { static const char *odd[] = {"%{}", "%{:x}", "%{noop}", "%{noop:arg}", "%{cwd}", "%{failure}", "%{snoopy_literal}", "%{env}", "%{snoopy_literal:}", "%{env:}"}; fmt += odd[r.below(10)]; break; }   // data sources that write nothing / fail
         default: { size_t n = r.chance(1, 3) ? (size_t)r.range(95, 105) : (size_t)r.range(1, 300); if (fmt.size() + n > 900) n = 5; fmt += "%{" + std::string(n, 'Q') + "}"; }
         }
     }
@@ -308,8 +308,11 @@ static Plan gen_c07(uint64_t seed, const std::string &tier) {
     std::string outv = r.chance(1, 2) ? "file:/log/c07" : gen_output_value(r, p.world);
     for (auto &chain : {join(els), join(perm), join(dup)}) {
         CfgSpec s; s.has_chain = true; s.chain = chain; s.has_format = true; s.format = "X%{filename}"; s.has_output = true; s.output = outv;
+        // a dropped call is silent - also when its message would not have fitted and error logging is on
+        bool noisy = !p.extra.getb("exhaustive") && seed % 5 == 0;
+        if (noisy) { s.format = "X%{filename} %{cmdline} %{cmdline}"; s.has_errlog = true; s.errlog = "yes"; s.has_logmax = true; s.logmax = "255"; }
         p.ops.push_back(op_setconfig(s.render(r, true)));
-        ExecOp e; e.api = (int)r.below(2); e.path = "/bin/x"; e.argv = {"x"}; gen_outcome(r, e, false);
+        ExecOp e; e.api = (int)r.below(2); e.path = "/bin/x"; e.argv = {"x"}; if (noisy) e.argv = {"x", std::string(300, 'L')}; gen_outcome(r, e, false);
         p.ops.push_back(op_exec(e));
     }
     return p;
@@ -534,7 +537,10 @@ static Plan gen_c12(uint64_t seed, const std::string &tier) {
         case 3: w2.cwd = "/moved/" + gen_token(r, 1, 12, 0); w2.cwd_errno = 0; break;
         case 4: w2.hostname = "renamed-" + gen_token(r, 1, 8, 0); break;
         case 5: w2.tty_state = (w2.tty_state + 1) % 3; break;
-        case 6: w2.sid = w2.pid; break;
+        case 6: if (r.chance(1, 2)) { w2.sid = w2.pid; break; }
+            // the next calls are made by a vfork() child: a new kernel task (pid, tid) in the same memory, thread-local storage included, no fork handlers run
+            if (!w2.procs.empty()) { Proc child = w2.procs[0]; int np = w2.pid + 1 + (int)r.below(50); child.pid = np; child.ppid = w2.pid; w2.procs.insert(w2.procs.begin(), child); w2.ppid = w2.pid; w2.pid = np; w2.tid_kernel = np; }
+            break;
         default: if (!w2.environ_null) { if (!w2.env.empty() && r.chance(1, 2)) w2.env.erase(w2.env.begin()); else w2.env.push_back("ADDED_LATER=1"); } break;
         }
         J a = w.to_json(), b = w2.to_json(); Op m; m.op = "Mutate"; m.patch = J::obj();
@@ -620,6 +626,7 @@ static Plan gen_c08(uint64_t seed, const std::string &tier) {
     (void)tier;
     Rng r(seed * 1000003 + 108);
     Plan p; p.property = "C08"; p.seed = seed; p.world = gen_world(r);
+    if (seed % 4 == 3) p.world.ctype_tr = true;   // what an option value means does not depend on the locale of the program that happens to call exec
     World &w = p.world;
     for (int i = 0; i < 3; i++) w.socks["/run/snoopy-" + std::to_string(i) + ".sock"] = SockNode();
     bool roundtrip = r.chance(1, 3);
